@@ -748,6 +748,9 @@ def reach_with_variants(f, start, stop=()):
                 v = None
                 if c.name == "branch" and c.args and c.args[0][0] != "k" and not c.args[0][1][1]:
                     v = TRY_ARM.get(state.get(c.args[0][1][0]))
+                elif c.name == "from_residual":
+                    ty = f.locals[dl]
+                    v = "Err" if ty.startswith("core::result::Result") else ("None" if ty.startswith("core::option::Option") else None)
                 state.pop(("discr", dl), None)
                 if v:
                     state[dl] = v
@@ -807,3 +810,12 @@ def bool_returns_from(f, start, limit=40):
         for s2 in succs:
             work.append((s2, tuple(sorted(env.items()))))
     return out
+
+
+def must_pass(f, through, goal):
+    """every feasible path (see reach_with_variants) from the entry to block `goal` passes one of the blocks `through`"""
+    through = [b for b in through if b != goal]
+    if goal in through or not through:
+        return goal in through
+    r = reach_with_variants(f, 0, stop=through)
+    return goal not in r
